@@ -101,6 +101,18 @@ PROPS = {
         "assumptions": COMMON_ASSUMPTIONS,
         "explanation": "UDP framing theorems + dest correspondence",
     },
+    "C19": {
+        "level": "proof",
+        "lean_modules": ["AnyTLS.Props.C19"],
+        "groups": [{"group": "push", "quick_cases": 300, "thorough_cases": 5000},
+                   {"group": "sess", "quick_cases": 300, "thorough_cases": 5000}],
+        "rule": "push case = one client process: 4-22 ops over up to ~4 sessions: new session (given the scheme the real Client would give it), pushes of parseable schemes (scheme generator), unparseable schemes, empty payloads, unrelated frames, packets of 7..507 bytes with injected draws, state queries; ends with a state query of every session and one more new session; "
+                "fixed regression case: default used, two pushes in a row, new session; the server-side rule (push iff the announced md5 differs) is exercised by the sess group (server role, Settings frames with matching / differing md5); non-trivial = at least one push; distinct by SHA-1 of the op lines",
+        "level_text": "kernel-checked theorems: a parseable push makes the session adopt exactly the pushed scheme and disturbs nothing else (push_adopts), every later packet of that session is accepted by the statement's acceptor for the *pushed* scheme (push_switches_session, C05 instantiated), an unparseable / empty push changes nothing (bad_push_ignored), the process-wide default becomes the pushed scheme (push_sets_default), sessions opened afterwards use and announce it (new_session_uses_default) so the server does not push again (server_pushes_iff_differs), and all of this for the n-th push after any history (nth_push_takes_effect). Tied to the code by the push differential run (real sessions, real process-wide default, the scheme a real Client hands to new sessions) with independent oracles (reference scheme parser + acceptor, adopted md5s)",
+        "level_note": "trusted: Lean kernel, extract.py, harness+driver glue; MD5 is an opaque function in the theorems (an executable MD5 is used by the driver only); session creation through a real dial (Client::create_new_session) is exercised by the e2e group, the in-process run uses the hook Client::verif_padding which calls the same PaddingFactory::effective",
+        "assumptions": COMMON_ASSUMPTIONS,
+        "explanation": "push/adoption theorems + push correspondence",
+    },
 }
 
 NOT_YET = {}
